@@ -23,3 +23,11 @@ package mobius
 //@ func HandleDisconnectUser(cc *hotline.ClientConn, t *hotline.Transaction) (res []hotline.Transaction)
 //@   before call (hotline.BanMgr).Add assert !priv(clientConn, 23)
 //@   before call mobius.HandleDisconnectUser$1 assert !priv(clientConn, 23)
+
+// C13: the automatic reply follows the client's current preference: a SetClientUserInfo whose
+// options field (113) is present with the automatic-response bit (bit 2) clear empties it.
+
+//@ func HandleSetClientUserInfo(cc *hotline.ClientConn, t *hotline.Transaction) (res []hotline.Transaction)
+//@   let opt := reqdata(0, 113)
+//@   ensures !isnil(opt) && len(opt) >= 2 && old(bitof(u16(bytes(opt)), 2)) == 0 ==> len(cc.AutoReply) == 0
+//@   ensures !isnil(opt) && len(opt) >= 2 && old(bitof(u16(bytes(opt)), 2)) == 1 ==> same(cc.AutoReply, reqdata(0, 215))
